@@ -3,7 +3,7 @@
    and the deep snapshot of EVERY pool value after the last step.  The model is run with two growth policies
    (exact need / doubling); the results are also compared with the pure layer (Model/Coll.v). *)
 From Coq Require Import ZArith NArith Bool List.
-From PcoreV Require Import Model.Base Model.Heap Model.Coll Model.CollHeap.
+From PcoreV Require Import Model.Base Model.Heap Model.Coll Model.CollHeap Model.CollHeapX.
 From PcoreV Require Import Model.Ty Model.Lattice Model.Infer Model.InferHeap.
 Import ListNotations.
 
@@ -16,6 +16,17 @@ Definition c08_check (c : list op * (list out * list pv)) : bool :=
   list_eqb out_eqb (Coll.run (fst c)) (fst (snd c)).
 
 Definition c08_mismatches (cs : list (list op * (list out * list pv))) : list N := failing c08_check cs.
+
+(* ---- histories with the routes that share entry objects (Model/CollHeapX.v: Hash.new(tree, 'tree'), MapEntries): the
+   projected result of every step and the final observation of every pool value, under two growth policies ---- *)
+Definition c08_x_check_with (grow : nat -> nat -> nat) (c : list xop * (list out * list pv)) : bool :=
+  let '(st, outs) := xrun grow empty_state (fst c) in
+  list_eqb out_eqb outs (fst (snd c)) && list_eqb pv_eqb (final_obs st) (snd (snd c)).
+
+Definition c08_x_check (c : list xop * (list out * list pv)) : bool :=
+  c08_x_check_with grow_double c && c08_x_check_with grow_exact c.
+
+Definition c08_x_mismatches (cs : list (list xop * (list out * list pv))) : list N := failing c08_x_check cs.
 
 (* ---- results that are types: the slice-level model of inference (Model/InferHeap.v) on a type history: the
    projected result of every step and the final observation of EVERY pool entry (values and types), under two
